@@ -495,3 +495,127 @@ def skip_meta(name, groups=None):
 
 def item(kind, name, attrs, gen=None, vis=()):
     return dict(attrs=list(attrs), vis=list(vis), name=name, generics=gen or generics(), kind=kind)
+
+
+# ---------------------------------------------------------------- Coq terms (for the vm_compute cross-check of the extracted evaluator)
+def cq_str(s):
+    return '"' + s.replace('"', '""') + '"'
+
+
+def cq_list(xs):
+    return '[' + '; '.join(xs) + ']'
+
+
+def cq_toks(ts):
+    return cq_list(cq_str(t) for t in flat(ts))
+
+
+def cq_bool(b):
+    return 'true' if b else 'false'
+
+
+def cq_opt(x, f):
+    return 'None' if x is None else '(Some ' + f(x) + ')'
+
+
+def cq_path(p):
+    return '(mkPath ' + cq_bool(p[0]) + ' ' + cq_list(cq_str(s) for s in p[1]) + ')'
+
+
+def cq_expr(e):
+    if e[0] == 'EStr':
+        return '(EStr ' + cq_str(e[1]) + ' ' + cq_opt(e[2], cq_path) + ')'
+    if e[0] == 'EPath':
+        return '(EPathE ' + cq_path(e[1]) + ')'
+    return '(EOther ' + cq_toks(e[1]) + ')'
+
+
+def cq_meta2(m):
+    if m[0] == 'P':
+        return '(M2Path ' + cq_path(m[1]) + ')'
+    if m[0] == 'NV':
+        return '(M2NameValue ' + cq_path(m[1]) + ' ' + cq_expr(m[2]) + ')'
+    return '(M2List ' + cq_path(m[1]) + ' ' + cq_toks(m[2]) + ')'
+
+
+def cq_meta1(m):
+    if m[0] == 'P':
+        return '(M1Path ' + cq_path(m[1]) + ')'
+    if m[0] == 'NV':
+        return '(M1NameValue ' + cq_path(m[1]) + ' ' + cq_expr(m[2]) + ')'
+    if m[0] == 'L':
+        return '(M1List ' + cq_path(m[1]) + ' ' + cq_opt(m[2], lambda l: cq_list(cq_meta2(x) for x in l)) + ')'
+    return '(M1Bad ' + cq_toks(m[1]) + ')'
+
+
+def cq_generic(g):
+    return '(' + {'Ty': 'GRType', 'Pred': 'GRPred', 'Lt': 'GRLifetime', 'Bad': 'GRBad'}[g[0]] + ' ' + cq_toks(g[1]) + ')'
+
+
+def cq_item_attr(a):
+    if a[0] == 'Dw':
+        d = a[1]
+        if d[0] == 'NotList':
+            return '(IADw (DANotList ' + cq_toks(d[1]) + '))'
+        return '(IADw (DAList ' + cq_list(cq_meta1(m) for m in d[1]) + ' ' + cq_opt(d[2], lambda l: cq_list(cq_generic(g) for g in l)) + '))'
+    if a[0] == 'Repr':
+        r = a[1]
+        if r[0] == 'Idents':
+            return '(IARepr (ReprIdents ' + cq_list(cq_str(i) for i in r[1]) + '))'
+        if r[0] == 'Unparsable':
+            return '(IARepr (ReprUnparsable ' + cq_toks(r[1]) + '))'
+        return '(IARepr ReprNotList)'
+    return '(IAOther ' + cq_path(a[1]) + ' ' + cq_toks(a[2]) + ')'
+
+
+def cq_field_attr(a):
+    if a[0] == 'Dw':
+        d = a[1]
+        if d[0] == 'NotList':
+            return '(FADw (SANotList ' + cq_toks(d[1]) + '))'
+        return '(FADw (SAList ' + cq_opt(d[1], lambda l: cq_list(cq_meta1(m) for m in l)) + '))'
+    return '(FAOther ' + cq_path(a[1]) + ' ' + cq_toks(a[2]) + ')'
+
+
+def cq_field(f):
+    return '(mkRawField ' + cq_list(cq_field_attr(a) for a in f['attrs']) + ' ' + cq_toks(f['vis']) + ' ' + cq_opt(f['name'], cq_str) + ' ' + cq_toks(f['ty']) + ')'
+
+
+def cq_z(n):
+    return '(%d)%%Z' % n
+
+
+def cq_variant(v):
+    return '(mkRawVariant ' + cq_list(cq_field_attr(a) for a in v['attrs']) + ' ' + cq_str(v['name']) + ' R' + v['shape'] + ' ' + \
+        cq_list(cq_field(f) for f in v['fields']) + ' ' + cq_opt(v['disc'], lambda d: '(' + cq_toks(d[0]) + ', ' + cq_z(d[1]) + ')') + ')'
+
+
+def cq_gparam(p):
+    if p[0] == 'Lt':
+        return '(GPLifetime ' + cq_str(p[1]) + ' ' + cq_toks(p[2]) + ')'
+    if p[0] == 'Ty':
+        return '(GPType ' + cq_str(p[1]) + ' ' + cq_toks(p[2]) + ' ' + cq_toks(p[3]) + ')'
+    return '(GPConst ' + cq_str(p[1]) + ' ' + cq_toks(p[2]) + ' ' + cq_toks(p[3]) + ')'
+
+
+def cq_generics(g):
+    return '(mkGenerics ' + cq_list(cq_gparam(p) for p in g['params']) + ' ' + cq_bool(g['trailing']) + ' ' + \
+        cq_opt(g['where'], lambda w: '(' + cq_list(cq_toks(p) for p in w[0]) + ', ' + cq_bool(w[1] and bool(w[0])) + ')') + ')'
+
+
+def cq_kind(k):
+    if k[0] == 'Struct':
+        return '(KStruct R' + k[1] + ' ' + cq_list(cq_field(f) for f in k[2]) + ')'
+    if k[0] == 'Enum':
+        return '(KEnum ' + cq_list(cq_variant(v) for v in k[1]) + ')'
+    return '(KUnion ' + cq_list(cq_field(f) for f in k[1]) + ')'
+
+
+def cq_item(it):
+    return '(mkRawItem ' + cq_list(cq_item_attr(a) for a in it['attrs']) + ' ' + cq_toks(it['vis']) + ' ' + cq_str(it['name']) + ' ' + \
+        cq_generics(it['generics']) + ' ' + cq_kind(it['kind']) + ')'
+
+
+def cq_cfg(name):
+    c = CFGS[name]
+    return '(mkCfg ' + ' '.join(cq_bool(c[k]) for k in ('safe', 'nightly', 'zeroize', 'zod')) + ')'
